@@ -25,3 +25,34 @@ Ltac gsolve H :=
           | let t := fresh "t" in let Ht := fresh "Ht" in let E := fresh "E" in
             destruct (sixth_root _ H) as [t [Ht E]];
             all_X_to_t6 t E; rp_all t; try (rewrite (ln_t6 t) by assumption); try exp_unify; try exp_pairs; field; conds ] ].
+
+(* entries involving a shear coordinate: the identity holds modulo sqrt 2 * sqrt 2 = 2.  sqrt 2 is abstracted into a real s
+   with s * s = 2, denominators are cleared, the powers of s are reduced and the rest is a ring identity. *)
+Ltac s_powers s Hs :=
+  let P2 := fresh "P" in let P3 := fresh "P" in let P4 := fresh "P" in let P5 := fresh "P" in let P6 := fresh "P" in
+  let P7 := fresh "P" in let P8 := fresh "P" in
+  assert (P2 : s ^ 2 = 2) by (simpl; lra);
+  assert (P3 : s ^ 3 = 2 * s) by (replace (s ^ 3) with (s ^ 2 * s) by ring; rewrite P2; ring);
+  assert (P4 : s ^ 4 = 4) by (replace (s ^ 4) with (s ^ 2 * s ^ 2) by ring; rewrite P2; ring);
+  assert (P5 : s ^ 5 = 4 * s) by (replace (s ^ 5) with (s ^ 4 * s) by ring; rewrite P4; ring);
+  assert (P6 : s ^ 6 = 8) by (replace (s ^ 6) with (s ^ 4 * s ^ 2) by ring; rewrite P4, P2; ring);
+  assert (P7 : s ^ 7 = 8 * s) by (replace (s ^ 7) with (s ^ 6 * s) by ring; rewrite P6; ring);
+  assert (P8 : s ^ 8 = 16) by (replace (s ^ 8) with (s ^ 4 * s ^ 4) by ring; rewrite P4; ring);
+  rewrite ?P8, ?P7, ?P6, ?P5, ?P4, ?P3, ?P2.
+
+Ltac s_close :=
+  let s := fresh "s" in let Hs := fresh "Hs" in
+  assert (Hs : sqrt 2 * sqrt 2 = 2) by (apply sqrt_sqrt; lra);
+  set (s := sqrt 2) in *; clearbody s;
+  field_simplify_eq; [ s_powers s Hs; ring | conds .. ].
+
+Ltac gsolve2 H :=
+  unfold Rpower; auto_derive;
+  [ gconds H
+  | lazymatch goal with
+    | |- context [ln _] =>
+      let t := fresh "t" in let Ht := fresh "Ht" in let E := fresh "E" in
+      destruct (sixth_root _ H) as [t [Ht E]];
+      all_X_to_t6 t E; rp_all t; try (rewrite (ln_t6 t) by assumption); s_close
+    | |- _ => s_close      (* energy polynomial in the invariants: no substitution needed *)
+    end ].
